@@ -238,7 +238,7 @@ def bounded(tier, seed, procs):
                 if want[0] == "val" and not (got[0] == "val" and got[1] == want[1]):
                     b2.fail(Failure("non-commuting", f"constructor={cname} terms={terms!r} tree={built[1] if built[0] == 'val' else None!r}", dict(kind="mat-ctor", constructor=cname, shape=i),
                                     expected=outcome.describe(want)[:150], actual=outcome.describe(got)[:150], functions=[cname]))
-    return [b, b2, b_constructors(tier), b_linear_combination(tier), b_registered_constants(tier)]
+    return [b, b2, b_constructors(tier), b_linear_combination(tier), b_registered_constants(tier), b_rational(tier)]
 
 
 class NC:
@@ -344,6 +344,12 @@ class _Obj:
     def __init__(self, v):
         self.re = v
         self.im = v + 100
+        self._count = v + 7
+        self._scale = 3 - v
+        self.aggregate = v + 9
+
+    def _twice(self, t):
+        return 2 * t + self._count
 
     def method(self, t, k=0):
         return 3 * t + 7 * k + self.re
@@ -359,9 +365,9 @@ def b_constructors(tier):
                    bound="~120 programs x 3 environments", functions=["Expression.__getitem__", "Expression.__call__", "Expression.attr", "Expression.a",
                                                                      "Expression.eq/ne/lt/le/gt/ge", "Expression.not_/and_/or_"])
     a, f, o, i, j = (p.Variable(n) for n in ("a", "f", "o", "i", "j"))
-    envs = [dict(a=[10, 20, 30, 40], f=lambda *t, **k: sum(t) * 2 + sum(v * 5 for v in k.values()) + 1, o=_Obj(4), i=0, j=1, m={(0,): 7, (0, 1): 8, (1, 0): 9, (1,): 6}),
-            dict(a=[-1, 0, 5, 2], f=lambda *t, **k: len(t) + 10 * len(k), o=_Obj(-2), i=2, j=0, m={(2,): 1, (2, 0): 2, (0, 2): 3, (0,): 4}),
-            dict(a=(3, 1, 4, 1), f=lambda *t, **k: 42, o=_Obj(0), i=1, j=1, m={(1,): 5, (1, 1): 0}),]
+    envs = [dict(a=[10, 20, 30, 40], f=lambda *t, **k: sum(t) * 2 + sum(v * 5 for v in k.values()) + 1, o=_Obj(4), i=0, j=1, m={(0,): 7, (0, 1): 8, (1, 0): 9, (1,): 6, (): 11}),
+            dict(a=[-1, 0, 5, 2], f=lambda *t, **k: len(t) + 10 * len(k), o=_Obj(-2), i=2, j=0, m={(2,): 1, (2, 0): 2, (0, 2): 3, (0,): 4, (): -5}),
+            dict(a=(3, 1, 4, 1), f=lambda *t, **k: 42, o=_Obj(0), i=1, j=1, m={(1,): 5, (1, 1): 0, (): 0}),]
     m = p.Variable("m")
     progs = {
         "a[0]": lambda a, f, o, i, j, m: a[0], "a[1]": lambda a, f, o, i, j, m: a[1], "a[-1]": lambda a, f, o, i, j, m: a[-1], "a[False]": lambda a, f, o, i, j, m: a[False],
@@ -374,6 +380,17 @@ def b_constructors(tier):
         "o.attr(re)": (lambda a, f, o, i, j, m: o.attr("re"), lambda a, f, o, i, j, m: o.re), "o.a.im": (lambda a, f, o, i, j, m: o.a.im, lambda a, f, o, i, j, m: o.im),
         "o.a.re+a[0]": (lambda a, f, o, i, j, m: o.a.re + a[0], lambda a, f, o, i, j, m: o.re + a[0]),
         "o.attr(method)(i,k=j)": (lambda a, f, o, i, j, m: o.attr("method")(i, k=j), lambda a, f, o, i, j, m: o.method(i, k=j)),
+        # attribute names of every spelling: a leading underscore, the name of the helper's own field
+        "o.a._count": (lambda a, f, o, i, j, m: o.a._count, lambda a, f, o, i, j, m: o._count),
+        "j-o.a._scale": (lambda a, f, o, i, j, m: j - o.a._scale, lambda a, f, o, i, j, m: j - o._scale),
+        "o.a._twice(i)": (lambda a, f, o, i, j, m: o.a._twice(i), lambda a, f, o, i, j, m: o._twice(i)),
+        "(o.a._count<<2)|o.a._scale": (lambda a, f, o, i, j, m: (o.a._count << 2) | o.a._scale, lambda a, f, o, i, j, m: (o._count << 2) | o._scale),
+        "o.attr(_count)": (lambda a, f, o, i, j, m: o.attr("_count"), lambda a, f, o, i, j, m: o._count),
+        "o.a.aggregate": (lambda a, f, o, i, j, m: o.a.aggregate, lambda a, f, o, i, j, m: o.aggregate),
+        "o.attr(aggregate)": (lambda a, f, o, i, j, m: o.attr("aggregate"), lambda a, f, o, i, j, m: o.aggregate),
+        # the empty tuple as an index
+        "m[()]": lambda a, f, o, i, j, m: m[()], "m[EmptyOK(())]": (lambda a, f, o, i, j, m: m[p.EmptyOK(())], lambda a, f, o, i, j, m: m[()]),
+        "m[()]+i": lambda a, f, o, i, j, m: m[()] + i,
         "i.eq(j)": (lambda a, f, o, i, j, m: i.eq(j), lambda a, f, o, i, j, m: i == j), "i.ne(j)": (lambda a, f, o, i, j, m: i.ne(j), lambda a, f, o, i, j, m: i != j),
         "i.lt(j)": (lambda a, f, o, i, j, m: i.lt(j), lambda a, f, o, i, j, m: i < j), "i.le(j)": (lambda a, f, o, i, j, m: i.le(j), lambda a, f, o, i, j, m: i <= j),
         "i.gt(j)": (lambda a, f, o, i, j, m: i.gt(j), lambda a, f, o, i, j, m: i > j), "i.ge(j)": (lambda a, f, o, i, j, m: i.ge(j), lambda a, f, o, i, j, m: i >= j),
@@ -392,8 +409,47 @@ def b_constructors(tier):
             b.case((name, repr(env["i"]), repr(env["j"])), sample=dict(program=name, tree=repr(built[1])[:120] if built[0] == "val" else None))
             got = outcome.run(lambda: EvaluationMapper(env)(built[1])) if built[0] == "val" else built
             if not (got[0] == "val" and outcome.same_value(got[1], want[1], typed=False)):
-                b.fail(Failure("constructor-syntax", f"program={name} i={env['i']} j={env['j']} tree={built[1] if built[0] == 'val' else None!r}", dict(kind="ctor", program=name),
+                cause = ("cause=attribute-named-like-helper-field " if name == "o.a.aggregate" else
+                         "cause=empty-tuple-index-returns-aggregate " if name in ("m[()]", "m[()]+i") else "")
+                b.fail(Failure("constructor-syntax", f"{cause}program={name} i={env['i']} j={env['j']} tree={built[1] if built[0] == 'val' else None!r}", dict(kind="ctor", program=name),
                                expected=outcome.describe(want), actual=outcome.describe(got)[:200], functions=["Expression.__getitem__", "Expression.__call__", "Expression.attr"]))
+    return b
+
+
+def b_rational(tier):
+    """The quotient helper on two integers builds a Rational node; operator programs over such nodes mean what they mean on exact fractions."""
+    import pymbolic.primitives as p
+    from fractions import Fraction as Fr
+    from pymbolic.mapper.evaluator import EvaluationMapper
+    b = BoundedRun("rational-programs", rule="q = quotient(a, b), r = quotient(c, d) for integer pairs (signs, non-reduced pairs, zero numerator, integral value), x a variable: the programs "
+                   "q, -q, q**k (k = 0..3), q+1, 1+q, q-1, 1-q, q*2, 2*q, q*r, q+r, q-r, q/r, q/2, 2/q, q+x, x+q, x-q, q-x, x*q, q*x, x/q, q/x, x**q, q*0, q+0, q*1, q-q, q*(1/q), q+r+q and "
+                   "(q+r)*(q-r), evaluated, equal the same lambda on fractions.Fraction (values compared to 1e-12: an evaluated Rational is a float); powers with a negative or symbolic "
+                   "exponent are a known finding", bound="9 operand pairs x 36 programs x 3 values of x", functions=["quotient", "Rational.__add__/__mul__/__pow__/__neg__", "EuclideanRingTraits.lcm"])
+    x = trees.X
+    progs = {"q": lambda q, r, x: q, "-q": lambda q, r, x: -q, "q**0": lambda q, r, x: q**0, "q**1": lambda q, r, x: q**1, "q**2": lambda q, r, x: q**2, "q**3": lambda q, r, x: q**3,
+             "q**-1": lambda q, r, x: q**-1, "q**-2": lambda q, r, x: q**-2, "q**x": lambda q, r, x: q**x,
+             "q+1": lambda q, r, x: q + 1, "1+q": lambda q, r, x: 1 + q, "q-1": lambda q, r, x: q - 1, "1-q": lambda q, r, x: 1 - q, "q*2": lambda q, r, x: q * 2, "2*q": lambda q, r, x: 2 * q,
+             "q*r": lambda q, r, x: q * r, "q+r": lambda q, r, x: q + r, "q-r": lambda q, r, x: q - r, "q/r": lambda q, r, x: q / r, "q/2": lambda q, r, x: q / 2, "2/q": lambda q, r, x: 2 / q,
+             "q+x": lambda q, r, x: q + x, "x+q": lambda q, r, x: x + q, "x-q": lambda q, r, x: x - q, "q-x": lambda q, r, x: q - x, "x*q": lambda q, r, x: x * q, "q*x": lambda q, r, x: q * x,
+             "x/q": lambda q, r, x: x / q, "q/x": lambda q, r, x: q / x, "x**q": lambda q, r, x: x**q, "q*0": lambda q, r, x: q * 0, "q+0": lambda q, r, x: q + 0, "q*1": lambda q, r, x: q * 1,
+             "q-q": lambda q, r, x: q - q, "q*(1/q)": lambda q, r, x: q * (1 / q), "q+r+q": lambda q, r, x: q + r + q, "(q+r)*(q-r)": lambda q, r, x: (q + r) * (q - r)}
+    pairs = [((1, 2), (2, 3)), ((-3, 4), (5, -6)), ((2, 4), (3, 9)), ((4, 2), (1, 3)), ((0, 3), (7, 5)), ((7, -3), (-7, 3)), ((5, 6), (1, 6)), ((9, 10), (1, 10)), ((1, 3), (1, 3))]
+    for (a_, b_), (c_, d_) in pairs:
+        q, r = outcome.run(lambda: p.quotient(a_, b_)), outcome.run(lambda: p.quotient(c_, d_))
+        for name, prog in progs.items():
+            built = outcome.run(lambda: prog(q[1], r[1], x)) if q[0] == r[0] == "val" else (q if q[0] != "val" else r)
+            for xv in (Fr(5), Fr(-2), Fr(4, 1)):
+                want = outcome.run(lambda: prog(Fr(a_, b_), Fr(c_, d_), xv))
+                if want[0] != "val" or isinstance(want[1], complex):
+                    continue
+                b.case((name, a_, b_, c_, d_, str(xv)), sample=dict(program=name, q=f"quotient({a_}, {b_})", r=f"quotient({c_}, {d_})", tree=repr(built[1])[:100] if built[0] == "val" else None))
+                got = outcome.run(lambda: EvaluationMapper({"x": int(xv)})(built[1])) if built[0] == "val" else built
+                ok = got[0] == "val" and outcome.run(lambda: abs(got[1] - want[1]) <= 1e-12 * max(1, abs(want[1]))) == ("val", True)
+                if not ok:
+                    cause = "cause=rational-power-negative-or-symbolic-exponent " if name in ("q**-1", "q**-2", "q**x") and got[0] == "exc" else ""
+                    b.fail(Failure("rational-programs", f"{cause}program={name} q=quotient({a_}, {b_}) r=quotient({c_}, {d_}) x={xv} tree={built[1] if built[0] == 'val' else None!r}",
+                                   dict(kind="rational", program=name, q=[a_, b_], r=[c_, d_]), expected=outcome.describe(want), actual=outcome.describe(got)[:200],
+                                   functions=["Rational.__add__", "Rational.__mul__", "Rational.__pow__", "quotient"]))
     return b
 
 
